@@ -343,7 +343,7 @@ def a_liveness(w: World, val: dict, tag: str) -> List[Ob]:
                   f'[{tag}] {nrec} boards logged, {len(val["boards"])} configured'))
     # the closing of the log precedes the END_SESSION tokens
     idx_close = next((i for i, e in enumerate(w.events) if e[1] == 'file-close'), None)
-    idx_end = next((i for i, e in enumerate(w.events) if e[1] == 'put' and e[3] == 'End of session'), None)
+    idx_end = next((i for i, e in enumerate(w.events) if e[1] == 'put' and (e[3] == 'End of session' or getattr(e[3], 'value', None) == 'End of session')), None)
     obs.append(Ob(R, idx_close is not None and idx_end is not None and idx_close < idx_end, 'log closed before the seats are told the session is over',
                   'bridge_env/network_bridge/server.py', 'Server.run', 'END_SESSION before log close',
                   f'[{tag}] END_SESSION is handed to the seat threads before the log is closed'))
